@@ -23,6 +23,7 @@ Plan gen_c10(uint64_t seed, int tier)
   {
     // one real file sink, written through stdio (F3)
     p.cfg["sink" + std::to_string(nsinks - 1) + "_type"] = 1;
+    p.cfg["sink" + std::to_string(nsinks - 1) + "_notifier"] = Rng(seed ^ 0x77).chance(1, 3) ? 1 : 0; // with FileEventNotifier callbacks
     file_sink = true;
   }
   fix_timescale(p);
